@@ -449,8 +449,13 @@ def check(ctx):
     for m_ in ('lineage', 'lineage.pxd'):
         ctx.prog.mod(m_)
     c08.check_pure_evaluation(sub)
+    from . import c06
+    c06.check_state_readers(sub)
     for rule, key, ok, where, what, detail in sub.got:
         if rule in ('R5.2-record-before-update', 'R5.2-record-condition', 'R9.3-rules-first', 'R8.4-work-on-copies'):
+            ctx.ob('R7.4-first-row', '%s/%s' % (rule, key), ok, where, what, detail)
+        if rule == 'R6.1-state-readers':
+            # every recorded row (the first one included) is the state as reactions and rules left it: nothing else edits it, safe mode included
             ctx.ob('R7.4-first-row', '%s/%s' % (rule, key), ok, where, what, detail)
         if rule == 'R8.7-pure-evaluation' and key == 'model-accessors':
             # the column labels come from Model.get_species_list() at conversion time: they must describe the model as it is now
